@@ -7,7 +7,7 @@ namespace {
 struct Field { int obj; int bytes; };            // obj: index into the 5 mappable objects, -1 = dummy
 struct Chan { bool present = false, en = false, sync = false; uint32_t id = 0; std::vector<Field> f; bool pend = false; uint8_t buf[8]; int total = 0; };
 
-void one_case(Ctx &c) {
+void case_impl(Ctx &c, bool resync) {
   Sim s(c); World w(s);
   s.nodeid = (uint8_t)(1 + c.t.below(127));
   w.mandatory();
@@ -59,12 +59,22 @@ void one_case(Ctx &c) {
     CHECK(c, d.empty(), "dictionary-equals-model", "after %s: %s (shown: expected -> actual)", after, d.c_str());
   };
   int mode = 2; bool registered = false; int syncs_seen_by_sync_rpdo = 0;
+  uint32_t syncid = 0x80; int sync_rewrites = 0; SdoClient cl(s, w.req[0], w.rsp[0]);   // mode sync-id-rewritten: a client moves the SYNC identifier (1005h) while the node runs
   int steps = 0; bool repeated_start = false;
   while (!c.t.exhausted() && steps < 120) {
     steps++; c.ops++;
-    static const uint16_t W[5] = {50, 25, 12, 8, 5};
-    uint32_t op = c.t.weighted(W);
+    static const uint16_t W[5] = {50, 25, 12, 8, 5}, WR[6] = {50, 25, 12, 8, 5, 8};
+    uint32_t op = resync ? c.t.weighted(WR) : c.t.weighted(W);   // mode "random" keeps the alphabet the saved witnesses were recorded with
     s.clear_tx();
+    if (op == 5) {        // the SYNC identifier is rewritten through SDO (the node is a SYNC consumer: any 11-bit identifier may be written at any time)
+      if (mode == 4) continue;
+      static const uint32_t SID[3] = {0x80, 0x90, 0x100}; uint32_t nid = SID[c.t.below(3)];
+      uint32_t code = cl.write(0x1005, 0, nid, 4);
+      CHECK(c, code == 0, "harness", "write of %08X to 1005h of a SYNC consumer refused with %08X", nid, code);
+      VLOG(c, "1005h := %08X", nid); if (nid != syncid) sync_rewrites++; syncid = nid; s.clear_tx();
+      { size_t off = s.ndict * 8; for (auto &b : s.blocks) { if (!b.storage) continue; if (b.name == "1005") for (int i = 0; i < 4; i++) model[off + i] = (uint8_t)(nid >> (8 * i)); off += b.n; } }
+      compare("a write to 1005h"); continue;
+    }
     if (op == 0) {        // RPDO frame or near miss
       uint32_t id; uint32_t k = c.t.below(8);
       if (k < 5) id = 0x200u + 0x100u * (k % 4) + s.nodeid; else if (k == 5) id = 0x201u + s.nodeid; else if (k == 6) id = 0x1FFu + s.nodeid; else id = 0x600 + c.t.below(0x100);
@@ -80,8 +90,11 @@ void one_case(Ctx &c) {
       // (decided from the payload, no extra tape choice)
       if (mode == 3 && f.d[7] % 4 == 0) { s.clear_tx(); s.rx(Frame::mk(0, 2, {1, (uint8_t)(f.d[6] & 1 ? 0 : s.nodeid)})); VLOG(c, "NMT start repeated while OPERATIONAL"); compare("a repeated NMT start while OPERATIONAL"); repeated_start = true; }
     } else if (op == 1) { // SYNC
-      VLOG(c, "SYNC");
-      s.rx(Frame::mk(0x80, c.t.chance(40) ? 1 : 0, {9}));
+      uint32_t fid = 0x80;
+      if (resync) { static const uint32_t SID[3] = {0x80, 0x90, 0x100}; fid = c.t.chance(170) ? syncid : SID[c.t.below(3)]; }
+      VLOG(c, "%s", fid == syncid ? "SYNC" : "frame on a former / other SYNC identifier");
+      s.rx(Frame::mk(fid, c.t.chance(40) ? 1 : 0, {9}));
+      if (fid != syncid) { compare("a frame whose identifier is not the SYNC identifier of 1005h"); continue; }
       bool unconstrained = false;
       if (mode == 2 || mode == 3) for (int p = 0; p < 4; p++) { Chan &r = ch[p]; if (r.present && r.en && r.sync && registered) { if (mode == 3) { syncs_seen_by_sync_rpdo++; if (r.pend) { r.pend = false; apply(r, r.buf); } } else if (r.pend) { unconstrained = true; r.pend = false; } } }
       if (unconstrained) model = s.snapshot();    // buffered frame + SYNC after leaving OPERATIONAL: applied or dropped, both admitted
@@ -97,8 +110,12 @@ void one_case(Ctx &c) {
     } else { for (int i = 0; i < 2; i++) s.step_tick(); compare("ticks"); }
   }
   if (many_fields || has_dummy || syncs_seen_by_sync_rpdo >= 2) c.nontrivial = true;
+  if (sync_rewrites) c.cls("sync-identifier-rewritten-at-run-time");
   if (has_dummy) c.cls("mapping-with-dummy"); if (many_fields) c.cls("two-or-more-fields"); if (syncs_seen_by_sync_rpdo >= 2) c.cls("sync-rpdo-saw-two-syncs");
 }
+
+void one_case(Ctx &c) { case_impl(c, false); }
+void resync_case(Ctx &c) { case_impl(c, true); }
 
 Registrar reg(Prop{
     "C13",
@@ -106,7 +123,8 @@ Registrar reg(Prop{
     "histories of up to 120 ops: RPDO frames with the mapped length or longer and random payloads, near-miss identifiers, SYNCs (DLC 0/1), NMT start/stop/pre-operational and repeated NMT start while OPERATIONAL, local writes, ticks. "
     "Oracle: model dictionary compared with a full storage snapshot after every step (asynchronous: consecutive little-endian fields written at once, dummies skipped by width; synchronous: buffered, applied at the next SYNC exactly once; nothing outside OPERATIONAL or for other identifiers; everything else byte-identical). "
     "Non-trivial: the case has a mapping with >= 2 fields or a dummy, or a synchronous RPDO saw >= 2 SYNCs. Distinct = distinct decoded choice sequence.",
-    {Mode{"random", one_case, false, 1000000, 20000000, 0, 0, 300, 500}},
+    {Mode{"random", one_case, false, 1000000, 20000000, 0, 0, 300, 500},
+     Mode{"sync-id-rewritten", resync_case, false, 300000, 5000000, 0, 0, 300, 500}},
     {"with colliding identifiers the first channel in index order receives the frame", "RPDO identifiers differ from the SYNC identifier of 1005h (there the statements of C13 and C16 contradict each other)", "a SYNC arriving after the node left OPERATIONAL with a buffered frame is not constrained", "frames shorter than the mapped length are not generated (statement silent)"}});
 
 }  // namespace
